@@ -95,6 +95,10 @@ def client(root, logp, errp, scenario):
         state["actions"].append(["delete", "ok", folder_path])
         return r
 
+    # keep pickle.whichmodule(delete_folder, "delete_folder") == "joblib.disk": the atexit finalizer of the
+    # manager re-imports the function from that module
+    delete_folder.__module__ = real_delete.__module__
+    delete_folder.__qualname__ = real_delete.__qualname__
     mr.delete_folder = delete_folder
 
     manager = mr.TemporaryResourcesManager(temp_folder_root=root, context_id="ctx%d" % CTX0)
